@@ -56,17 +56,17 @@ class NumpyOrSetEncoder(json.JSONEncoder):
                 'shape': obj.shape
             }
         # Case for numpy scalars
-        if isinstance(obj, (np.int32, np.int64)):
+        if isinstance(obj, np.integer):
             return int(obj)
-        if isinstance(obj, (np.float32, np.float64, np.float128)):
-            return int(obj)
+        if isinstance(obj, np.floating):
+            return float(obj)
 
         # Case for built-in Python sets
         if isinstance(obj, set):
             return {'data': list(obj), '_is_set': True}
 
         # If it is not a numpy array we fall back to base class encoder
-        return json.JSONEncoder(self, obj)  # type: ignore
+        return super().default(obj)
 
 
 def json_numpy_or_set_obj_hook(
@@ -91,8 +91,13 @@ def json_numpy_or_set_obj_hook(
     """
     if isinstance(dct, dict) and '_is_numpy_array' in dct:
         if dct['_is_numpy_array'] is True:
-            data = dct['data']
-            return np.array(data)
+            # The dtype and shape are needed to recover empty and
+            # multidimensional arrays as well as narrow scalar types
+            data = np.array(dct['data'], dtype=dct.get('dtype'))
+            shape = dct.get('shape')
+            if shape is not None:
+                data = data.reshape(shape)
+            return data
 
         raise ValueError(  # pragma: no cover
             'Json representation contains the "_is_numpy_array" key '
